@@ -3,9 +3,13 @@ import Dnp3.Proofs.OutstationC12
 /-!
 # C11 — A READ is answered with a complete, consistent snapshot as an orderly series
 
-Database-component theorems (`Dnp3.Model.Database`) for EVERY database, selection, capacity and
-series, restated verbatim from `Dnp3.Props.DbComponent` (namespace `Dnp3.Props.Db`, which carries the
-satisfiability `example`s):
+Database-component theorems (`Dnp3.Model.Database`) for EVERY database (points of all eight point
+types), selection, capacity and series, restated verbatim from `Dnp3.Props.DbComponent` (namespace
+`Dnp3.Props.Db`, which carries the satisfiability `example`s):
+
+* `read_arms_well_formed`, `header_dispatch_own`: every arm of the generated `ReadHeader::from_all_objects /
+  from_count / from_range` tables maps its variation to the type whose group it is, requests exactly that
+  variation and keeps the request's count / range; every queued header reads the map of its own type;
 
 * `series_covers_exactly_once`, `series_conserves`, `selected_header_is_range`, `response_octets`:
   over any series of response writes (any capacities) the concatenation of the static objects
@@ -14,7 +18,9 @@ satisfiability `example`s):
   and confirms in between but no `add`; the full statement is FALSE on the unchanged tree (D12,
   `series_is_snapshot_counterexample`: a point added inside a selected range while the series is
   open is reported with the constructor default it never had outside the adding transaction);
-* `progress`, `response_within_capacity`: every non-final fragment makes progress and fits.
+* `progress` (every single object fits: `FitsCap`; an octet string that does not fit is D15),
+  `progress_fixed` (no octet strings: 22 octets suffice), `response_within_capacity`: every non-final
+  fragment makes progress and fits.
 
 The series discipline (FIR on the first fragment only, FIN on the last only, consecutive sequence
 numbers, next fragment only after the matching confirm, new request / timeout / disconnect end the
@@ -23,17 +29,33 @@ series) is the session model's: `solWait_confirm_continues`, `continuation_corre
 namespace Dnp3.Props.C11
 open Dnp3 Dnp3.DbM Dnp3.DbProofs Dnp3.Props.Db
 
+/-- every arm of `ReadHeader::from_all_objects / from_count / from_range` maps the variation to the type
+    whose group it is, requests exactly that variation (none for variation 0) and keeps the request's
+    count / range (`from_all_objects` has none to keep) -/
+theorem read_arms_well_formed :
+    Gen.DbT.readAllObjects.all (DbTables.armOk false) = true ∧ Gen.DbT.readCount.all (DbTables.armOk true) = true ∧
+    Gen.DbT.readRange.all (DbTables.armOk true) = true :=
+  @Dnp3.Props.Db.read_arms_well_formed 
+
+/-- the header variants of `select_by_header`, `StaticDatabase::select`, `write_range` and the accessors of
+    `impl Updatable` lead to the type they are named after; `select_class_zero` visits every type once, in
+    the order of `enum Event` -/
+theorem header_dispatch_own (t : PtType) :
+    Gen.DbT.eventHdrTy t = t ∧ Gen.DbT.staticHdrTy t = t ∧ Gen.DbT.writeRangeTy t = t ∧
+    Gen.DbT.updatable t = ⟨t, t, t, decide (t ≠ .octetString), t⟩ ∧ Gen.DbT.classZeroOrder = Gen.DbT.Ty.all :=
+  @Dnp3.Props.Db.header_dispatch_own t
+
 /-- the point maps are sorted by index (the `BTreeMap` order) in every reachable state -/
-theorem static_sorted_invariant (evMax : Nat) (sel : Option Nat) (ops : List DbOp) :
-    StaticSorted (run (Db.new evMax sel) ops) :=
-  @Dnp3.Props.Db.static_sorted_invariant evMax sel ops
+theorem static_sorted_invariant (ev : TyVec Nat) (cz : TyVec Bool) (sel : Option Nat) (ops : List DbOpX) :
+    StaticSorted (runX (Db.newCfg ev cz sel) ops) :=
+  @Dnp3.Props.Db.static_sorted_invariant ev cz sel ops
 
 /-- what a queued READ header stands for: every existing point of its range exactly once, in
     ascending index order, with the point's `selected` (snapshot) cell -/
 theorem selected_header_is_range (db : Db) (hs : StaticSorted db) (it : SelItem) :
     (itemObjs db it).Pairwise (fun a b => a.idx < b.idx) ∧
     (itemObjs db it).map (·.idx) = ((mapOf db it).filter (fun p => inRange it p.1)).map (·.1) ∧
-    (∀ var, it.kind = .binary var ∨ it.kind = .analog var →
+    (∀ k var, it.kind = .typed k var →
       (itemObjs db it).map (fun o => (o.idx, o.m)) =
         ((mapOf db it).filter (fun p => inRange it p.1)).map (fun p => (p.1, p.2.selected))) :=
   @Dnp3.Props.Db.selected_header_is_range db hs it
@@ -84,12 +106,19 @@ theorem series_is_snapshot_counterexample :
     (db2.writeResponse 300).2.2.2 = true :=
   @Dnp3.Props.Db.series_is_snapshot_counterexample 
 
-/-- `progress`: when an object with its header fits (22 octets suffice for every variation of
-    the two modelled types), a response that is not complete carries at least one object — so a
-    series terminates (D15 concerns octet strings, which are not modelled) -/
-theorem progress (db : Db) (cap : Nat) (hcap : 22 ≤ cap) (hinc : (db.writeResponse cap).2.2.2 = false) :
+/-- `progress`: when every single object with its header fits the buffer (`FitsCap`: 22 octets suffice for
+    every fixed-size variation of the seven fixed-size types; an octet string needs its length + 7), a
+    response that is not complete carries at least one object — so a series terminates.  An octet string
+    that does not fit makes the series an endless run of empty fragments (D15) -/
+theorem progress (db : Db) (cap : Nat) (hfit : FitsCap db cap) (hinc : (db.writeResponse cap).2.2.2 = false) :
     (db.writeEvents cap).2.1 ≠ [] ∨ (writeStaticObjs db cap).flatten ≠ [] :=
-  @Dnp3.Props.Db.progress db cap hcap hinc
+  @Dnp3.Props.Db.progress db cap hfit hinc
+
+/-- … for a database without octet strings 22 octets are enough -/
+theorem progress_fixed (db : Db) (cap : Nat) (hcap : 22 ≤ cap) (hev : ∀ r ∈ db.events, r.ty ≠ .octetString)
+    (hpt : db.map .octetString = []) (hinc : (db.writeResponse cap).2.2.2 = false) :
+    (db.writeEvents cap).2.1 ≠ [] ∨ (writeStaticObjs db cap).flatten ≠ [] :=
+  @Dnp3.Props.Db.progress_fixed db cap hcap hev hpt hinc
 
 /-- a response never exceeds the space left in the transmit buffer (the incremental cost the
     writers charge is exactly the length of the octets they produce) -/
@@ -97,7 +126,6 @@ theorem response_within_capacity (db : Db) (cap : Nat) :
     (db.writeResponse cap).2.1.length ≤ cap ∧
     ∀ c1 c2 c3, (db.writeUnsolicited c1 c2 c3 cap).2.1.length ≤ cap :=
   @Dnp3.Props.Db.response_within_capacity db cap
-
 
 /-! ## Series discipline (session model; restated from `Dnp3.Proofs.OutstationC12`) -/
 
